@@ -58,6 +58,8 @@ void SimulateNull::dump_registers()
 
 int SimulateNull::run(int max_cycles, int step)
 {
+  stop_running = false;
+
   while (stop_running == false)
   {
     printf("CPU not supported.\n");
